@@ -440,3 +440,49 @@ func exhaustiveExprs(level int) []string {
 	}
 	return out
 }
+
+// nestedSources: builtins nested in the closures of other builtins whose COLLECTION argument is computed
+// from the enclosing closure's element (so it must be compiled in the enclosing scope), to depth 3, with
+// early exits taken and not taken, and uses of the outer element after the inner loop.
+func nestedSources() []string {
+	var out []string
+	bs := []string{"all", "none", "any", "one", "filter", "map", "count"}
+	body := map[string]string{"all": "# > 1", "none": "# > 1", "any": "# > 1", "one": "# > 1", "filter": "# > 1", "map": "# * 2", "count": "# > 1"}
+	colls := []string{"[[1, 2], [3], [], [0, 5, 7]]", "[[2, 3], [4]]", "[[0], [1]]"}
+	for _, outer := range bs {
+		for _, inner := range bs {
+			for ci, coll := range colls {
+				if ci > 0 && (len(outer)+len(inner))%2 == 0 {
+					continue
+				}
+				in := fmt.Sprintf("%s(#, {%s})", inner, body[inner])
+				var b string
+				switch outer {
+				case "map":
+					b = in
+				default:
+					switch inner {
+					case "filter", "map":
+						b = "len(" + in + ") > 0"
+					case "count":
+						b = in + " >= 1"
+					default:
+						b = in
+					}
+				}
+				out = append(out, fmt.Sprintf("%s(%s, {%s})", outer, coll, b))
+			}
+		}
+	}
+	out = append(out,
+		"map(AI, {count(1..#, {# % 2 == 0})})", "map(AI, {len(filter(1..(# + 1), {# > 1}))})", "filter(AI, {one(0..#, {# == 2})})",
+		"map([[[1], [2, 3]], [[4]]], {map(#, {count(#, {# > 1})})})", "map([[[1], [2, 3]], [[4]]], {map(#, {one(#, {# > 1})})})",
+		"all([[[1], [2, 3]], [[4]]], {all(#, {any(#, {# > 0})})})", "map([[1, 2], [3]], {len(#) + count(#, {# > 1}) + len(#)})",
+		"map([[1, 2], [3]], {[count(#, {# > 1}), len(#), one(#, {# == 3})]})", "map([[1, 2], [3]], {none(#, {# > 2}) ? len(#) : -len(#)})",
+		"count([[1, 2], [3]], {none(#, {# > 2})}) + count([[1, 2], [3]], {none(#, {# > 5})})", "map([[1, 2], [3]], {none(#, {# == 1})})",
+		"map([[1, 1], [1, 2], [2, 2]], {one(#, {# == 1})})", "filter([[1, 1], [1, 2], [2, 2]], {one(#, {# == 1})})",
+		"(count([1, 1], {# == 1}) == 1) == one([1, 1], {# == 1})", "1 + (one([1, 1, 1], {# == 1}) ? 1 : 2)", "[one([1, 1], {# == 1}), one([1, 2], {# == 1})]",
+		"map(1..3, {map(1..3, {map(1..2, {map(1..2, {#})})})})", "all(1..2, {all(1..2, {all(1..2, {all(1..2, {all(1..2, {# > 0})})})})})",
+		"len(map(1..2, {filter(1..3, {count(1..2, {any(1..2, {# == 2})}) > 0})}))")
+	return out
+}
